@@ -823,6 +823,19 @@ class _Ctx:
             else:
                 terms.append(e)
         flat(val)
+        if len(terms) == 1 and isinstance(val, ast.BinOp) and isinstance(val.op, ast.BitAnd):
+            # one value cut by a mask: `w.write(33, 'pts', value=self.pts & 0xFFFFFFFF)` writes a 32-bit field under
+            # a zero bit - narrower than what the reader takes for the field.  A mask as wide as the field is no cut.
+            for a, b in ((val.left, val.right), (val.right, val.left)):
+                if isinstance(b, ast.Constant) and isinstance(b.value, int) and not isinstance(b.value, bool) \
+                        and b.value > 0 and (b.value & (b.value + 1)) == 0:
+                    w_ = b.value.bit_length()
+                    nm = a.attr if isinstance(a, ast.Attribute) and isinstance(a.value, ast.Name) and a.value.id == 'self' \
+                        else a.id if isinstance(a, ast.Name) else None
+                    if nm is None or w_ >= total:
+                        return None
+                    return [Item(total - w_, False, None, 'pad', line, 0), Item(w_, False, nm, 'field', line)]
+            return None
         if len(terms) < 2:
             return None
         fields: list[tuple[int, int | None, str]] = []     # (shift, width or None, name)
